@@ -39,24 +39,25 @@ Theorem C19_seek_under_faults_touches_only_own_blocks : forall bs ofs key (bad :
   FileIOFr.Fr (key :: L ++ E) s (snd (fio_seek bs ofs bad s p)).
 Proof. intros bs ofs key bad s L E p I. apply FileIOFr.fio_seek_fr. exact (inv_own bs ofs key s L E I). Qed.
 
-(* a seek to a position INSIDE the file that reports success under an arbitrary set of unreadable blocks and leaves a buffered block: the handle
-   is coherent at the requested position and stands for the same content - on every flavour, whether the seek went through the header /
-   extension tables or, on OFS, through the fallback walk along the data blocks (adfFileSeekOFS_) after the table walk had failed *)
-Theorem C19_seek_inside_success_is_coherent : forall bs ofs key, 0 < bs -> forall (bad : Z -> bool) s L E ct p s',
-  Inv bs ofs key s L E -> Repr bs s L ct -> 0 <= p < fsize s -> fio_seek bs ofs bad s p = (true, s') -> cur s' <> 0 ->
-  Inv bs ofs key s' L E /\ Repr bs s' L ct /\ pos s' = p.
-Proof. exact fio_seek_faulty_inside. Qed.
+(* a seek (to any position: inside the file, to its end, beyond it) that reports success under an arbitrary set of unreadable blocks and leaves a
+   buffered block: the handle is coherent at the requested position (clamped to the size) and stands for the same content - on every flavour,
+   whether the seek went through the header / extension tables or, on OFS, through the fallback walk along the data blocks (adfFileSeekOFS_)
+   after the table walk had failed, adfFileSeekEOF_'s own seek to size-1 and the nested fallback included *)
+Theorem C19_seek_success_is_coherent : forall bs ofs key, 0 < bs -> forall (bad : Z -> bool) s L E ct p s',
+  Inv bs ofs key s L E -> Repr bs s L ct -> 0 <= p -> 0 < fsize s -> fio_seek bs ofs bad s p = (true, s') -> cur s' <> 0 ->
+  Inv bs ofs key s' L E /\ Repr bs s' L ct /\ pos s' = Z.min p (fsize s).
+Proof. exact fio_seek_faulty. Qed.
 
-(* ... and the read that follows, itself under any set of unreadable blocks, returns a prefix of the file's true bytes from p on - also when the
+(* ... and the read that follows, itself under any set of unreadable blocks, returns a prefix of the file's true bytes from there on - also when the
    "successful" seek left no buffered block (then it returns nothing): fewer bytes, never wrong ones *)
 Theorem C19_read_after_faulty_seek_returns_true_bytes : forall bs ofs key, 0 < bs -> forall (bad bad2 : Z -> bool) s L E ct p s' n,
-  Inv bs ofs key s L E -> Repr bs s L ct -> 0 <= p < fsize s -> 0 <= n -> fio_seek bs ofs bad s p = (true, s') ->
-  exists s'' m, fio_read bs ofs bad2 s' n = (s'', sub ct p m) /\ 0 <= m <= Z.max 0 (Z.min n (fsize s - p)).
+  Inv bs ofs key s L E -> Repr bs s L ct -> 0 <= p -> 0 < fsize s -> 0 <= n -> fio_seek bs ofs bad s p = (true, s') ->
+  exists s'' m, fio_read bs ofs bad2 s' n = (s'', sub ct (Z.min p (fsize s)) m) /\ 0 <= m <= Z.max 0 (Z.min n (fsize s - Z.min p (fsize s))).
 Proof. exact seek_then_read_faulty. Qed.
 
-(* seeks to the end of the file or beyond it: proved for volumes without the fallback (FFS) - a success is exactly the fault-free seek; on OFS
-   the nested fallback (adfFileSeekEOF_ seeks to size-1 and may fall back, then the outer seek may fall back again from the state the failed
-   one left) is decided by the call-level correspondence with injected faults, not by a theorem *)
+(* (the fault model of these theorems is a set of unreadable blocks that is FIXED during a call; a block that fails once and then reads - a
+   transient fault - is in the enumeration of checks/c19.py only.  The FFS-only statement below is kept: it says more - the success is the very
+   state the fault-free seek produces.) *)
 Theorem C19_ffs_seek_success_is_the_faultfree_seek_partial : forall bs key, 0 < bs -> forall (bad : Z -> bool) s L E ct p s',
   Inv bs false key s L E -> Repr bs s L ct -> 0 <= p -> fio_seek bs false bad s p = (true, s') ->
   fio_seek bs false nobad s p = (true, s') /\ Inv bs false key s' L E /\ Repr bs s' L ct /\ pos s' = Z.min p (fsize s).
@@ -68,7 +69,7 @@ Qed.
 
 Print Assumptions C19_containment_under_any_faults.
 Print Assumptions C19_ffs_seek_success_is_the_faultfree_seek_partial.
-Print Assumptions C19_seek_inside_success_is_coherent.
+Print Assumptions C19_seek_success_is_coherent.
 Print Assumptions C19_read_after_faulty_seek_returns_true_bytes.
 Print Assumptions C19_read_returns_only_true_bytes_partial.
 Print Assumptions C19_refusal_is_an_error.
